@@ -91,6 +91,7 @@ def run(ctx):
     # ---------------------------------------------------------------- UNDO (index clause of C13-COVER)
     for f, creates in C13.protocol_functions(ctx):
         C13.check_function(ctx, f, creates, only_cover_locs=('index',), prefix='C11-UNDO')
+        C13.check_function(ctx, f, creates, prefix='C11-UNDO', reg_for=('index',))
 
     # ---------------------------------------------------------------- RELEASE
     nrel = 0
@@ -135,6 +136,7 @@ def run(ctx):
 
 
 MUTANTS = [
+    dict(id='C11-reg1', file='pony/orm/core.py', fn='Attribute.__set__', old="            undo_funcs.append(undo_func)\n            if old_val == new_val: return\n", new="            if old_val == new_val:\n                undo_funcs.append(undo_func)\n                return\n", expect='C11-UNDO-REG'),
     dict(id='C11-fs', file='pony/orm/core.py', fn='SessionCache.update_simple_index', old="        undo.append((cache_index, old_val, new_val))", new="        pass", expect='C11'),
     dict(id='C11-norm1', file='pony/orm/dbapiprovider.py', fn='DecimalConverter.validate', old="        if exp is not None and val.is_finite(): val = val.quantize(exp)", new="        if exp is not None and val.is_finite() and not isinstance(val, Decimal): val = val.quantize(exp)", expect='C11-KEYNORM'),
     dict(id='C11-r1', file='pony/orm/core.py', fn='SessionCache.update_composite_index', old="        if prev_vals is not None: del cache_index[prev_vals]", new="            if prev_vals is not None: del cache_index[prev_vals]", expect='C11-RELEASE'),
